@@ -372,7 +372,7 @@ def mutants():
           "                return next[\"name\"] in ('rt', 'rp')\n            else:\n                return type == \"EndTag\" or type is None",
           "                return next[\"name\"] in ('rt', 'rp')\n            else:\n                return True", "R13.5"),
         T("thead-at-end", "filters/optionaltags.py", "            elif tagname == 'tbody':\n                return type == \"EndTag\" or type is None",
-          "            else:\n                return type == \"EndTag\" or type is None", "R13.5"),
+          "            elif tagname in ('tbody', 'thead'):\n                return type == \"EndTag\" or type is None", "R13.5"),
         T("head-end-before-space", "filters/optionaltags.py", "if tagname in ('html', 'head', 'body'):\n            # An html element's end tag may be omitted if the html element\n            # is not immediately followed by a space character or a comment.\n            return type not in (\"Comment\", \"SpaceCharacters\")",
           "if tagname in ('html', 'head', 'body'):\n            return type != \"Comment\"", "R13.5"),
         T("li-before-any-start", "filters/optionaltags.py",
